@@ -10,7 +10,8 @@ namespace Driver.ParseOps
 def flagsOfJson (j : J) : Flags :=
   { noLocation := j.boolD "nl", allowTypeSystem := j.boolD "ts", experimentalFragmentVariables := j.boolD "fv" }
 
-def errToJson (e : SynErr) : J := .obj [("err", .obj [("pos", J.ofNat e.pos), ("msg", .str e.msg)])]
+def errToJson (e : SynErr) : J :=
+  .obj [("err", .obj [("pos", J.ofNat e.pos), ("msg", .str e.msg), ("eof", .bool e.eof)])]
 
 /-- parse with the given entry point; `spec` = the specification evaluated on the model's own output
     (WF ∧ the token list matches the tree's concrete-syntax view, spans included) -/
@@ -45,13 +46,15 @@ def layout (ts : List Tok) : List Tok :=
 
 def parseEnum (entry : String) (fl : Flags) (alpha : List Tok) (n : Nat) : J :=
   let all := strings alpha n
-  let rec go (i : Nat) (acc : Array J) : List (List Tok) → Array J
-    | [] => acc
+  let rec go (i : Nat) (acc : Array J) (errs : Array J) : List (List Tok) → Array J × Array J
+    | [] => (acc, errs)
     | ts :: rest =>
       match parseEntry entry fl (layout ts) with
-      | .ok (j, _) => go (i + 1) (acc.push (.arr [J.ofNat i, j])) rest
-      | .error _ => go (i + 1) acc rest
-  .obj [("n", J.ofNat all.length), ("accepted", .arr (go 0 #[] all).toList)]
+      | .ok (j, _) => go (i + 1) (acc.push (.arr [J.ofNat i, j])) errs rest
+      | .error e => go (i + 1) acc (errs.push (.arr [J.ofNat e.pos, J.ofNat (if e.eof then 1 else 0)])) rest
+  let (acc, errs) := go 0 #[] #[] all
+  -- `errs`: [position, 1 if UnexpectedEOF else 0] of every REJECTED string, in enumeration order
+  .obj [("n", J.ofNat all.length), ("accepted", .arr acc.toList), ("errs", .arr errs.toList)]
 
 /-- answer the request if its "op" belongs to this group -/
 def handle? (j : J) : Option J :=
